@@ -1,7 +1,7 @@
 /-
 Ghost wire view and executable monitors for C07 / C02 / C10 / C11 (state-machine part).
 
-A trace is the list of observations `Obs` of Model/Client/Loop.lean — op, returned packet or
+A trace is the list of observations `Obs` of Model/Client/StateLoop.lean — op, returned packet or
 error, drained events, `clean()` of a clone, `collision`, `inflight()` — produced either by the
 model (`ltrace`, theorems in Proofs/Props) or by the real `MqttState` through `vh cstate`
 (Driver/CStateD.lean). From the trace alone (never from the internal tables) `Ghost.step` maintains
@@ -77,22 +77,12 @@ def isUserRequest : Request → Bool
 /-- diagnostics only: why a clause fails (printed in the verdict detail so that a recorded finding
     can be pinned to its shape). Never read by a predicate. -/
 structure Diag where
-  /-- tag ↦ how the client forgot it -/
-  lostCause : List (Nat × String) := []
-  /-- why a parked publish waits for an id nobody holds -/
-  orphanCause : String := ""
-  /-- earlier events of the case that explain later bookkeeping mismatches -/
-  leaks : List String := []
-  /-- a CONNACK lowered the limit below ids / window in use -/
+  /-- a CONNACK lowered the limit while publishes were outstanding / waiting for retransmission -/
   lowered : Bool := false
-  /-- a SUBSCRIBE / UNSUBSCRIBE consumed a packet id -/
-  subSeen : Bool := false
-  /-- a reconnect without session dropped pending publishes -/
-  dropSeen : Bool := false
-  /-- ids stored by a request that returned an error (never written) -/
-  phantom : List Nat := []
-  maxId : Nat := 0
   deriving Repr, Inhabited
+
+def Diag.causes (d : Diag) : List String :=
+  if d.lowered then ["connack-lowered"] else []
 
 structure Ghost where
   ver : Version
@@ -107,6 +97,8 @@ structure Ghost where
   pending : List Request
   /-- incoming QoS 2 ids received and not yet released (this connection) -/
   inQos2 : List Nat
+  /-- v5 topic aliases the broker has registered (PUBLISH with a topic and an alias) -/
+  aliases : List Nat
   /-- every user request so far was issued while the gate, computed from observables, was open -/
   gated : Bool
   /-- C11's hypothesis so far: only QoS ≤ 1 publishes sent, every PUBACK was for the oldest
@@ -119,20 +111,23 @@ structure Ghost where
 
 def Ghost.init (ver : Version) (max : Nat) (manual : Bool) : Ghost :=
   { ver, upper := max, limit := max, manual, unacked := [], rels := [], accepted := [], done := [],
-    pending := [], inQos2 := [], gated := true, inOrder := true, pView := [], pCol := none, pInf := 0 }
+    pending := [], inQos2 := [], aliases := [], gated := true, inOrder := true, pView := [], pCol := none, pInf := 0 }
 
-/-- the gate as the loop evaluates it, from what was observable before the op -/
-def Ghost.gateOpen (g : Ghost) : Bool :=
-  g.pending.isEmpty && decide (g.pInf < g.limit) && g.pCol.isNone
+/-- `!inflight_full && !collision` as the loop evaluates it, from what was observable before the op -/
+def Ghost.windowOpen (g : Ghost) : Bool := decide (g.pInf < g.limit) && g.pCol.isNone
+
+/-- the gate for a request from the channel -/
+def Ghost.gateOpen (g : Ghost) : Bool := g.pending.isEmpty && g.windowOpen
 
 def addRel (l : List Nat) (i : Nat) : List Nat := if l.contains i then l else l ++ [i]
 
-/-- requests the loop itself issues whatever the gate says: the keep-alive ping and the head of
-    `pending`. Anything else is a user request and must have found the gate open. -/
+/-- requests the loop itself issues whatever the window says: the keep-alive ping and the head of
+    `pending` when it is a retransmission (owns a packet id); a head of `pending` without an id
+    obeys flow control. Anything else is a user request and must have found the gate open. -/
 def Ghost.loopOwn (g : Ghost) : Request → Bool
   | .pingreq => true
-  | .publish p => p.pkid != 0 && g.pending.contains (.publish p)
-  | .pubrel i => g.pending.contains (.pubrel i)
+  | .publish p => g.pending.head? == some (.publish p) && (p.pkid != 0 || g.windowOpen)
+  | .pubrel i => g.pending.head? == some (.pubrel i)
   | _ => false
 
 /-- wire bookkeeping for an `out` op -/
@@ -141,7 +136,7 @@ def Ghost.stepOut (g : Ghost) (r : Request) (o : Outcome) : Ghost :=
   match r with
   | .publish p =>
     let fresh := p.pkid == 0
-    let g := { g with pending := if fresh then g.pending else eraseFirst g.pending (.publish p),
+    let g := { g with pending := eraseFirst g.pending (.publish p),
                       inOrder := g.inOrder && decide (p.qos ≤ 1) }
     (match o with
      | .ok (some (.publish q)) =>
@@ -159,6 +154,12 @@ def Ghost.stepOut (g : Ghost) (r : Request) (o : Outcome) : Ghost :=
      | _ => g)
   | _ => g
 
+/-- MQTT 5: a PUBLISH with an empty topic and a topic alias that was never registered -/
+def protocolError (g : Ghost) (q : InPub) : Bool :=
+  match g.ver, q.alias with
+  | .v5, some a => q.topicEmpty && !g.aliases.contains a
+  | _, _ => false
+
 /-- wire bookkeeping for an `in` op (independent of what the client answered) -/
 def Ghost.stepIn (g : Ghost) (p : Incoming) : Ghost :=
   match p with
@@ -174,7 +175,12 @@ def Ghost.stepIn (g : Ghost) (p : Incoming) : Ghost :=
      | some t => { g with unacked := aerase g.unacked i, done := t :: g.done, inOrder := false }
      | none => { g with inOrder := false })
   | .pubcomp i _ => { g with rels := g.rels.filter (· != i), inOrder := false }
-  | .publish q => if q.qos = 0 || q.qos = 1 then g else { g with inQos2 := addRel g.inQos2 q.pkid }
+  | .publish q =>
+    if protocolError g q then g else
+    let g := match g.ver, q.alias with
+      | .v5, some a => if q.topicEmpty then g else { g with aliases := addRel g.aliases a }
+      | _, _ => g
+    if q.qos = 0 || q.qos = 1 then g else { g with inQos2 := addRel g.inQos2 q.pkid }
   | .pubrel i _ => { g with inQos2 := g.inQos2.filter (· != i) }
   | .connack ok _ rm _ =>
     (match g.ver, ok, rm with
@@ -197,10 +203,7 @@ def Ghost.core (g : Ghost) (o : Obs) : Ghost :=
     | .inc p => (g.stepIn p).released o.outcome
     | .clean =>
       (match o.outcome with
-       | .ok _ => { g with pending := g.pending ++ o.cleaned, unacked := [], rels := [], inQos2 := [],
-                           -- a second failure before `pending` is drained reorders the retransmissions
-                           -- (rest ++ state.clean()): outside C11's state-machine clause
-                           inOrder := g.inOrder && g.pending.isEmpty }
+       | .ok _ => { g with pending := o.cleaned ++ g.pending, unacked := [], rels := [], inQos2 := [] }
        | _ => g)
     | .drop => { g with done := pubTags g.pending ++ g.done, pending := [] }
     | .inflight => g
@@ -227,51 +230,11 @@ def heldTags (g' : Ghost) (o : Obs) : List Nat := pubTags o.view ++ colTag o.col
 def addCause (l : List String) (c : String) : List String := if l.contains c then l else l ++ [c]
 
 def Diag.step (d : Diag) (g : Ghost) (o : Obs) (g' : Ghost) : Diag :=
-  let colId : Option Nat := g.pCol.map (·.pkid)
-  let d := match o.outcome with
-    | .ok (some pkt) => (match chosenId pkt with
-        | some i => { d with maxId := max d.maxId i }
-        | none => d)
-    | _ => d
-  let d := match o.op, o.outcome with
-    | .out (.publish _), .err _ =>
-      let fresh := (pubIds o.view).filter (fun i => !(pubIds g.pView).contains i)
-      { d with phantom := d.phantom ++ fresh, maxId := fresh.foldl max d.maxId }
-    | .out (.subscribe _), .ok (some _) => { d with subSeen := true }
-    | .out .unsubscribe, .ok (some _) => { d with subSeen := true }
-    | .inc (.pubcomp i r), oc =>
-      let d := match oc with
-        | .ok (some (.publish q)) =>
-          { d with lostCause := (q.tag, "pubcomp-release") :: d.lostCause, leaks := addCause d.leaks "pubcomp-release" }
-        | _ => (match g.pCol with
-            | some c =>
-              if c.pkid = i && o.col.isNone then
-                { d with lostCause := (c.tag, "pubcomp-drop") :: d.lostCause, leaks := addCause d.leaks "pubcomp-drop" }
-              else d
-            | none => d)
-      if g.ver = Version.v5 && r != 0 && g.rels.contains i then { d with leaks := addCause d.leaks "failed-comp" } else d
-    | .inc (.pubrec i r), _ =>
-      let d := if d.phantom.contains i && (alookup g.unacked i).isNone then
-          { d with lostCause := (pubTags (g.pView.filter (fun q => pubIds [q] == [i]))).map (fun t => (t, "never-written")) ++ d.lostCause }
-        else d
-      let d := if g.ver = Version.v5 && !ackOk r && (alookup g.unacked i).isSome
-        then { d with leaks := addCause d.leaks "failed-rec" } else d
-      if g.ver = Version.v5 && !ackOk r && colId == some i then { d with orphanCause := "failed-ack" } else d
-    | .inc (.puback i r), _ =>
-      let d := if d.phantom.contains i && (alookup g.unacked i).isNone then
-          { d with lostCause := (pubTags (g.pView.filter (fun q => pubIds [q] == [i]))).map (fun t => (t, "never-written")) ++ d.lostCause }
-        else d
-      if g.ver = Version.v5 && !ackOk r && colId == some i then { d with orphanCause := "failed-ack" } else d
-    | .clean, _ => if g.pCol.isSome then { d with orphanCause := "clean" } else d
-    | .drop, _ => if (pubIds g.pending).isEmpty then d else { d with dropSeen := true }
-    | .inc (.connack _ _ _ _), _ =>
-      if decide (g'.limit < g.limit) && (decide (g'.limit ≤ d.maxId) || !(unackedIds g).isEmpty || !g.pending.isEmpty || g.pCol.isSome)
-      then { d with lowered := true } else d
-    | _, _ => d
-  let d := if o.col.isNone then { d with orphanCause := "" } else d
-  let d := if decide (unackedIds g').Nodup then d else { d with leaks := addCause d.leaks "dup-id" }
-  let d := if d.phantom.isEmpty then d else { d with leaks := addCause d.leaks "phantom" }
-  if d.lowered then { d with leaks := addCause d.leaks "connack-lowered" } else d
+  match o.op with
+  | .inc (.connack _ _ _ _) =>
+    if decide (g'.limit < g.limit) && (!(unackedIds g).isEmpty || !g.pending.isEmpty || g.pCol.isSome || g'.limit == 0)
+    then { d with lowered := true } else d
+  | _ => d
 
 /-- the ghost after one observation; the diagnostics `Diag` are threaded separately -/
 def Ghost.step (g : Ghost) (o : Obs) : Ghost := g.core o
@@ -315,11 +278,11 @@ def dupKind (g' : Ghost) : String :=
   else "reused-while-awaiting-pubcomp"
 
 def C07.checks : Check := fun g _ o g' d' => firstFail [
-  chk (C07.range g o g') "c07-range" s!"limit={g.limit} causes={d'.leaks}",
-  chk (C07.dupId g') "c07-dup-id" s!"dup={dupKind g'} unacked={g'.unacked.map (·.1)} awaiting-comp={g'.rels} causes={d'.leaks}",
-  chk (C07.window g') "c07-window" s!"unacked={(unackedIds g').length} limit={g'.limit} causes={d'.leaks}",
-  chk (C07.resumes g' o) "c07-stuck" s!"unacked={(unackedIds g').length} limit={g'.limit} inflight={o.inf} causes={d'.leaks}",
-  chk (C07.resolvable g' o) "c07-collision-orphan" s!"cause={d'.orphanCause} unacked={unackedIds g'} causes={d'.leaks}"]
+  chk (C07.range g o g') "c07-range" s!"limit={g.limit} causes={d'.causes}",
+  chk (C07.dupId g') "c07-dup-id" s!"dup={dupKind g'} unacked={g'.unacked.map (·.1)} awaiting-comp={g'.rels} causes={d'.causes}",
+  chk (C07.window g') "c07-window" s!"unacked={(unackedIds g').length} limit={g'.limit} causes={d'.causes}",
+  chk (C07.resumes g' o) "c07-stuck" s!"unacked={(unackedIds g').length} limit={g'.limit} inflight={o.inf} causes={d'.causes}",
+  chk (C07.resolvable g' o) "c07-collision-orphan" s!"unacked={unackedIds g'} causes={d'.causes}"]
 
 /-! #### C02 -/
 def C02.noLoss (g' : Ghost) (o : Obs) : Bool :=
@@ -336,7 +299,7 @@ def lostTags (g' : Ghost) (o : Obs) : List Nat :=
   g'.accepted.filter (fun t => !(g'.done.contains t || (heldTags g' o).contains t))
 
 def C02.checks : Check := fun g _ o g' d' => firstFail [
-  chk (C02.noLoss g' o) "c02-lost" s!"tags={(lostTags g' o).map (fun t => s!"{t}:{((d'.lostCause.lookup t).getD "unexplained")}")}",
+  chk (C02.noLoss g' o) "c02-lost" s!"tags={lostTags g' o} causes={d'.causes}",
   chk (C02.relHeld g' o) "c02-rel-lost" s!"awaiting-comp={g'.rels}",
   chk (C02.cleanExact g o) "c02-clean" "clean() differs from what it held or left something behind"]
 
@@ -368,7 +331,9 @@ def C10.ack (g : Ghost) (o : Obs) : Bool :=
   | _ =>
     match o.op with
     | .inc (.publish q) =>
-      if q.qos = 0 then o.outcome == .ok none
+      -- a protocol error is answered by DISCONNECT (reason 0x82), not by an acknowledgement
+      if protocolError g q then o.outcome == .ok (some (.disconnect 130))
+      else if q.qos = 0 then o.outcome == .ok none
       else if g.manual then o.outcome == .ok none
       else if q.qos = 1 then o.outcome == .ok (some (.puback q.pkid))
       else o.outcome == .ok (some (.pubrec q.pkid))
@@ -441,22 +406,27 @@ def C10.notify (o : Obs) : Bool :=
   | .ok (some pkt) => announced o.events == [.outgoing (outgoingOf pkt)]
   | _ => announced o.events == []
 
-def C10.checks : Check := fun g d o _ _ => firstFail [
+def C10.checks : Check := fun g _ o _ _ => firstFail [
   chk (C10.noPanic o) "c10-panic" "incoming packet made the state machine panic",
   chk (C10.order o) "c10-order" "incoming packet not surfaced exactly once and first",
   chk (C10.ack g o) "c10-ack" "wrong or missing answer",
   chk (C10.relAnswered g o) "c10-no-pubcomp" "release of a known id not answered by PUBCOMP",
-  chk (C10.unsolicitedErr g o) "c10-unsolicited-accepted" s!"never-written-id={match unsolicitedAck g o.op with | some i => d.phantom.contains i | none => false}",
+  chk (C10.unsolicitedErr g o) "c10-unsolicited-accepted" "unsolicited acknowledgement not reported as error",
   chk (C10.unsolicitedKeeps g o) "c10-corrupt" s!"bookkeeping changed by an unsolicited ack: inflight {g.pInf}->{o.inf}",
   chk (C10.notify o) "c10-notify" "Outgoing notifications do not match the packet written"]
 
 /-! #### C11 -/
+/-- the publishes of a `clean()` list that have been on the wire (a publish parked on a collision
+    is returned unnumbered, last) -/
+def sentPubs (l : List Request) : List Request :=
+  l.filter (fun r => match r with | .publish p => p.pkid != 0 | _ => false)
+
 /-- v4, in-order acks so far: `clean()` would return the unacknowledged publishes in send order -/
 def C11.order (g' : Ghost) (o : Obs) : Bool :=
   !(g'.ver = .v4 && g'.gated && g'.inOrder) ||
   match o.op with
   | .clean => true
-  | _ => pubTags o.view == g'.unacked.map (·.2) && pubIds o.view == g'.unacked.map (·.1)
+  | _ => pubTags (sentPubs o.view) == g'.unacked.map (·.2) && pubIds (sentPubs o.view) == g'.unacked.map (·.1)
 
 /-- the list `clean` returns is the view it had (so the order statement transfers), and a
     retransmitted publish goes to the wire with its original id and content -/
@@ -466,89 +436,22 @@ def C11.retransmitSame (o : Obs) : Bool :=
   | _, _ => true
 
 def C11.checks : Check := fun _ _ o g' d' => firstFail [
-  chk (C11.order g' o) "c11-order" s!"clean-order={pubIds o.view} send-order={g'.unacked.map (·.1)} sub-consumed-id={d'.subSeen} dropped-pending={d'.dropSeen}",
+  chk (C11.order g' o) "c11-order" s!"clean-order={pubIds (sentPubs o.view)} send-order={g'.unacked.map (·.1)} causes={d'.causes}",
   chk (C11.retransmitSame o) "c11-retransmit-changed" "retransmitted publish differs from the stored one"]
 
-/-! ### triggers: the corner cases (DESIGN.md section 9) in which the as-is code violates a clause.
-Each is a predicate on the loop state and the next operation; the `_partial` theorems assume
-exactly that the trigger they name does not occur along the run (`Avoids`). -/
+/-! ### trigger: the one corner case in which a clause is still violated. It originates in the
+event loop (`eventloop.rs`), not in the state machine; the `_partial` theorems assume exactly that
+it does not occur along the run (`Avoids`). -/
 
-/-- #17 (v5): a CONNACK lowers `max_outgoing_inflight` to a value the id counter or the window
-    already exceeds. Lowering is harmless when nothing is in use (the normal first CONNACK). -/
+/-- #17 (v5, residual): a CONNACK lowers `max_outgoing_inflight` while more than that many messages
+    are outstanding or waiting in `pending` (the loop replays `pending` without looking at the new
+    limit), or to 0. Lowering is harmless when nothing is in use (the normal first CONNACK). -/
 def unsafeConnack (l : LState) : LOp → Prop
   | .inc (.connack true _ (some m) _) =>
     l.st.ver = .v5 ∧
-    ¬ (l.st.lastPkid < min m l.st.upperLimit ∧
+    ¬ (1 ≤ min m l.st.upperLimit ∧
         (l.st.maxInflight ≤ min m l.st.upperLimit ∨
           (l.st.inflight = 0 ∧ l.pending = [] ∧ l.st.collision = none)))
-  | _ => False
-
-/-- #4 (v4) / #13 (v5): a PUBCOMP arrives whose id equals the id of the parked publish -/
-def pubcompOnCollision (l : LState) : LOp → Prop
-  | .inc (.pubcomp i _) => ∃ c, l.st.collision = some c ∧ c.pkid = i
-  | _ => False
-
-/-- #11: a fresh QoS>0 publish is about to receive an id whose QoS 2 flow still awaits PUBCOMP -/
-def idReuseAwaitingComp (l : LState) : LOp → Prop
-  | .user (.publish q _) =>
-    q ≠ 0 ∧ l.pending = [] ∧ selectEnabled l.st l.pending = true ∧ relContains l.st (nextPkidVal l.st) = true
-  | _ => False
-
-/-- #12: the connection fails (`clean`) while a publish is parked on a collision -/
-def cleanWithCollision (l : LState) : LOp → Prop
-  | .fail => l.st.collision.isSome = true
-  | _ => False
-
-/-- #14 (v5): PUBACK / PUBREC with a failure reason for the id the parked publish waits for -/
-def failedAckOnCollision (l : LState) : LOp → Prop
-  | .inc (.puback i r) => l.st.ver = .v5 ∧ ackOk r = false ∧ ∃ c, l.st.collision = some c ∧ c.pkid = i
-  | .inc (.pubrec i r) => l.st.ver = .v5 ∧ ackOk r = false ∧ ∃ c, l.st.collision = some c ∧ c.pkid = i
-  | _ => False
-
-/-- #15 / #16 (v5): PUBREC with a failure reason for an outstanding publish, PUBCOMP with a
-    failure reason for a pending release — the slot / bit is freed, `inflight` is not decremented -/
-def failedRecOrComp (l : LState) : LOp → Prop
-  | .inc (.pubrec i r) => l.st.ver = .v5 ∧ ackOk r = false ∧ occAt l.st i = true
-  | .inc (.pubcomp i r) => l.st.ver = .v5 ∧ r ≠ 0 ∧ relContains l.st i = true
-  | _ => False
-
-/-- the v5 PUBCOMP handler takes a parked publish (and announces it) before it knows whether it
-    will send it -/
-def pubcompDropsCollision (s : State) (i r : Nat) : Prop :=
-  ∃ c, s.collision = some c ∧ c.pkid = i ∧ (relContains s i = false ∨ r ≠ 0)
-
-/-- v5: PUBLISH with an empty topic and an alias nobody registered -/
-def unknownAlias (s : State) (p : InPub) : Prop :=
-  s.ver = .v5 ∧ ∃ a, p.alias = some a ∧ p.topicEmpty = true ∧ s.aliases.contains a = false
-
-/-- the v5 corner cases in which a notification is pushed for a packet that is not written -/
-def announcesUnwritten (s : State) (p : Incoming) : Prop :=
-  s.ver = .v5 ∧
-  match p with
-  | .publish q => unknownAlias s q
-  | .pubcomp i r => pubcompDropsCollision s i r
-  | _ => False
-
-/-- #13 / #21 (v5): an `Outgoing` notification is pushed for a packet that is never written -/
-def unwrittenAnnouncement (l : LState) : LOp → Prop
-  | .inc p => announcesUnwritten l.st p
-  | _ => False
-
-/-- #22 (v5): a PUBREL of a known id carrying a failure reason is not answered -/
-def releaseWithFailureReason (l : LState) : LOp → Prop
-  | .inc (.pubrel i r) => l.st.ver = .v5 ∧ r ≠ 0 ∧ l.st.incomingPub.contains i = true
-  | _ => False
-
-/-- #19: a SUBSCRIBE / UNSUBSCRIBE consumes a packet id (so publish ids are no longer consecutive) -/
-def subConsumesId (l : LState) : LOp → Prop
-  | .user (.subscribe n) => n ≠ 0 ∧ l.pending = [] ∧ selectEnabled l.st l.pending = true
-  | .user .unsubscribe => l.pending = [] ∧ selectEnabled l.st l.pending = true
-  | _ => False
-
-/-- #23: a reconnect without `session_present` drops pending publishes; `last_puback` and the id
-    counter are not realigned, so the ids handed out next do not follow `last_puback` -/
-def dropsPending (l : LState) : LOp → Prop
-  | .newSession => pubIds l.pending ≠ []
   | _ => False
 
 /-- a run avoids a trigger -/
